@@ -495,3 +495,35 @@ def array_token(P, R, rule):
         R.check(bool(rets) and complete, rule, g_, rets[0] if rets else None, f'the token of a {ci.name} covers its elements completely (whole array, or buffers together with the validity of the elements)',
                 f'the token {g_.name} computes for a {ci.name} is built from {sorted(attrs)} only: a missing element and an empty one have the same offsets and coordinates, so arrays that differ only in '
                 'missing vs empty elements get one token and dask serves the first frame for both', construct=f'{g_.name}: token covers validity')
+
+
+def class_level_mutable_state(P, R, rule, classes, why):
+    """A mutable container assigned in the class body is ONE object shared by every instance that never got its own.  Where instances fill it in place
+    (`self.attr[key] = ...`, `.update`, `.append` ...) the entries of one instance show up in all the others."""
+    MUT = ('append', 'extend', 'add', 'update', 'insert', 'setdefault', 'pop', 'clear', 'remove')
+    n = 0
+    for ci in classes:
+        for name, mem in ci.members.items():
+            if mem[0] != 'assign':
+                continue
+            v = getattr(mem[1], 'value', mem[1])
+            mutable = isinstance(v, (ast.List, ast.Dict, ast.Set)) or (isinstance(v, ast.Call) and norm(v.func) in ('list', 'dict', 'set', 'collections.defaultdict', 'defaultdict', 'OrderedDict'))
+            if not mutable:
+                continue
+            n += 1
+            writers = []
+            for f in P.all_funcs():
+                if f.cls is None or not (f.cls is ci or (f.cls.mro and ci in f.cls.mro)):
+                    continue
+                for x in walk_own(f.node):
+                    if isinstance(x, (ast.Assign, ast.AugAssign)):
+                        for t in (x.targets if isinstance(x, ast.Assign) else [x.target]):
+                            if isinstance(t, ast.Subscript) and isinstance(t.value, ast.Attribute) and t.value.attr == name and isinstance(t.value.value, ast.Name) and t.value.value.id == 'self':
+                                writers.append((f, x))
+                    if isinstance(x, ast.Call) and isinstance(x.func, ast.Attribute) and x.func.attr in MUT and isinstance(x.func.value, ast.Attribute) and x.func.value.attr == name \
+                            and isinstance(x.func.value.value, ast.Name) and x.func.value.value.id == 'self':
+                        writers.append((f, x))
+            R.check(not writers, rule, (ci.mod.path, ci.name), mem[1], f'`{ci.name}.{name}` (a class-level container) is never filled in place through an instance',
+                    f'`{ci.name}.{name} = {norm(v)}` is one container shared by all instances, and `{norm(writers[0][1])[:70] if writers else ""}` in {writers[0][0].qualname if writers else ""} fills it in '
+                    f'place: {why}', construct=f'{ci.name}.{name} class-level container')
+    return n
